@@ -20,7 +20,7 @@ NVals(n) ==
     [] n = "varint" -> <<IV(0, << >>), IV(0, <<127>>), IV(0, <<128>>), IV(1, <<128>>), IV(1, <<129>>), IV(0, <<0, 0, 0, 0, 0, 0, 0, 0, 1>>),
                          IV(1, <<1, 0, 0, 0, 0, 0, 0, 0, 1>>), IV(1, <<0, 128>>), IV(0, <<255, 255>>)>>
     [] n = "date" -> <<IV(0, << >>), IV(0, <<0, 0, 0, 128>>), IV(0, <<255, 255, 255, 255>>), IV(0, <<1>>)>>
-    [] n = "time" -> <<IV(0, << >>), IV(0, <<255, 79, 210, 205, 148, 78>>), IV(0, <<1>>)>>       \* 86399999999999
+    [] n = "time" -> <<IV(0, << >>), IV(0, <<255, 255, 78, 145, 148, 78>>), IV(0, <<1>>)>>       \* 86399999999999
     [] n = "timestamp" -> <<IV(0, << >>), IV(1, <<1>>), IV(0, <<255, 255, 255, 255, 255, 255, 255, 127>>), IV(1, <<0, 0, 0, 0, 0, 0, 0, 128>>), IV(0, <<0, 16, 165, 212, 232>>)>>
     [] n = "boolean" -> <<[k |-> "b", v |-> 1], [k |-> "b", v |-> 0]>>
     [] n = "float" -> <<Bits(<<63, 128, 0, 0>>), Bits(<<127, 192, 0, 1>>), Bits(<<128, 0, 0, 0>>), Bits(<<255, 128, 0, 0>>)>>
@@ -43,6 +43,8 @@ Natives == {"ascii", "bigint", "blob", "boolean", "counter", "date", "decimal", 
             "smallint", "text", "time", "timestamp", "timeuuid", "tinyint", "uuid", "varint"}
 ElemN == {"int", "text", "bigint", "boolean", "varint", "duration", "uuid"}
 
+ZeroLen(T) == IF T.k = "native" /\ T.n \in {"text", "ascii"} THEN <<Txt(<< >>)>>
+              ELSE IF T.k = "native" /\ T.n = "blob" THEN <<Raw(<< >>)>> ELSE << >>
 RECURSIVE Vals(_)
 SeqSet(s) == {s[i] : i \in 1..Len(s)}
 Two(T) == LET vs == Vals(T) IN IF Len(vs) >= 2 THEN <<vs[1], vs[2]>> ELSE vs
@@ -66,8 +68,12 @@ Vals(T) ==
              alt == [i \in 1..Len(T.fs) |-> IF i % 2 = 1 THEN Null0 ELSE Two(T.fs[i].t)[Len(Two(T.fs[i].t))]] IN
          << [k |-> "udt", vs |-> full], [k |-> "udt", vs |-> alt], [k |-> "udt", vs |-> SubSeq(full, 1, Len(full) - 1)] >>
     [] T.k = "vector" ->
-         LET e == Two(T.e) IN
+         LET e == Two(T.e)
+             z == ZeroLen(T.e) IN      \* a zero-length element (empty string / blob) in first and in last position
          << [k |-> "seq", vs |-> [i \in 1..T.d |-> e[1]]], [k |-> "seq", vs |-> [i \in 1..T.d |-> IF i % 2 = 1 THEN e[Len(e)] ELSE e[1]]] >>
+         \o (IF Len(z) = 0 THEN << >>
+             ELSE << [k |-> "seq", vs |-> [i \in 1..T.d |-> IF i = T.d THEN z[1] ELSE e[1]]],
+                     [k |-> "seq", vs |-> [i \in 1..T.d |-> IF i = 1 THEN z[1] ELSE e[1]]] >>)
 
 L(e) == [k |-> "list", e |-> e]
 St(e) == [k |-> "set", e |-> e]
@@ -82,7 +88,7 @@ Depth1 == {NT(n) : n \in Natives}
   \cup {M(NT(a), NT(b)) : a \in {"int", "text"}, b \in ElemN}
   \cup {Tp(<<NT("int"), NT("text")>>), Tp(<<NT("varint"), NT("boolean"), NT("bigint")>>), Tp(<<NT("duration")>>)}
   \cup {U(<<F("a", NT("int")), F("b", NT("text")), F("c", NT(n))>>) : n \in {"bigint", "varint", "uuid"}}
-  \cup {V(NT("int"), 3), V(NT("text"), 2), V(NT("bigint"), 1), V(NT("boolean"), 2), V(NT("varint"), 2), V(NT("uuid"), 2), V(NT("duration"), 1), V(NT("smallint"), 2)}
+  \cup {V(NT("int"), 3), V(NT("text"), 2), V(NT("bigint"), 1), V(NT("boolean"), 2), V(NT("varint"), 2), V(NT("uuid"), 2), V(NT("duration"), 1), V(NT("smallint"), 2), V(NT("blob"), 2), V(NT("ascii"), 3)}
 Nested == {L(L(NT("int"))), M(NT("text"), L(NT("int"))), L(Tp(<<NT("int"), NT("text")>>)), Tp(<<L(NT("int")), M(NT("int"), NT("text"))>>),
            U(<<F("x", L(NT("text"))), F("y", Tp(<<NT("int"), NT("boolean")>>))>>), V(V(NT("int"), 2), 2), V(L(NT("int")), 2),
            L(U(<<F("a", NT("int")), F("b", NT("text"))>>)), St(Tp(<<NT("int"), NT("text")>>)), M(NT("int"), U(<<F("a", NT("varint"))>>)),
@@ -90,7 +96,9 @@ Nested == {L(L(NT("int"))), M(NT("text"), L(NT("int"))), L(Tp(<<NT("int"), NT("t
            Tp(<<Tp(<<NT("int"), Tp(<<NT("text"), NT("boolean")>>)>>), NT("int")>>), V(Tp(<<NT("int"), NT("text")>>), 2)}
 Types == IF Depth2 THEN Depth1 \cup Nested ELSE Depth1
 
-EmptyOk(T) == T.k = "native" /\ T.n \notin {"counter", "duration"}
+\* the special zero-length value exists for types whose natural encoding is never empty (for text / ascii / blob a
+\* zero-length cell simply is the empty string); counters and durations do not have it
+EmptyOk(T) == T.k = "native" /\ T.n \notin {"counter", "duration", "text", "ascii", "blob"}
 VARIABLE c
 Init == \E T \in Types :
           \/ \E i \in 1..Len(Vals(T)) : c = [t |-> T, v |-> Vals(T)[i]]
